@@ -694,8 +694,11 @@ def c12(rng, count, exhaustive_len=3):
     flags = ["-g", "-p", "-s", "-z", "-m", "-j", "--no-join", "--json", "-V", "-h"]
     while len(out) < count + len(strs) * 2:
         mode = rng.choice(modes)
-        b = rng.choice(BIG + WEIRD + [gen_bounds(rng)])
-        if rng.random() < 0.3:
+        # half of the argument vectors carry well-formed bounds, so that what the options do at run time
+        # (not only how they are rejected) is exercised in every combination
+        wellformed = rng.random() < 0.5
+        b = gen_bounds(rng) if wellformed else rng.choice(BIG + WEIRD + [gen_bounds(rng)])
+        if not wellformed and rng.random() < 0.3:
             b = b + "," + rng.choice(BIG + WEIRD)
         argv = [mode, b]
         if rng.random() < 0.6: argv += ["-d", rng.choice(["-", "", "--", "é", "\n", "a"])]
@@ -703,7 +706,7 @@ def c12(rng, count, exhaustive_len=3):
             if rng.random() < 0.12: argv.append(f)
         if rng.random() < 0.2: argv += ["-r", rng.choice(["", "/", "$0", "${", "\\"])]
         if rng.random() < 0.2: argv += ["-t", rng.choice(["l", "r", "b", "x", ""])]
-        if rng.random() < 0.15: argv += ["-e", rng.choice(["-", "[", "(", "a|", "-+", "\\b", ".*", "", "(?i)a", "$", "^"])]
+        if rng.random() < 0.2: argv += ["-e", rng.choice(["-", "-", "[-,]", "-|b", "[", "(", "a|", "-+", "\\b", ".*", "", "(?i)a", "$", "^"])]
         if rng.random() < 0.15: argv += ["-M", rng.choice(["1", "0", "-1", "18014398509481984", "18446744073709551615", "x", "99999999999999999999"])]
         if rng.random() < 0.15: argv += ["--fallback-oob", rng.choice(["", "x"])]
         if rng.random() < 0.05: argv.append(rng.choice(["--fallback-oob", "--fallback-oob=", "-f", "--bogus", "-x", "-d"]))
